@@ -39,7 +39,10 @@ AllLocks == 1..(NLocks + NQueues)   \* lock NLocks+q is the read mutex of queue 
 Mutex(q) == NLocks + q
 Times  == 1..Horizon
 Classes == {"Key", "Index", "Assert"}        \* classes of client exceptions
-Priv(c) == c = "Assert"                      \* Scope.PROMOTE_CONCURRENT
+\* Scope.PROMOTE_CONCURRENT: failures of CHILDREN are tested with isinstance, the exception passing through the
+\* body with the exact type.  "AssertSub" is an application-specific subclass of a privileged type.
+Priv(c) == c \in {"Assert", "AssertSub"}
+PrivExact(c) == c = "Assert"
 
 VARIABLES
   now,      \* Loop.time
@@ -526,7 +529,7 @@ ConcOf(fs) == SelectSeq(fs, LAMBDA f : ~(f[1] \in {"tcancelled", "tclosed"}))
 ScopeOutcome(s, x) ==
   LET fs == sc[s].failures
       own == x = NoSig \/ x = Cs(s) \/ x = Ci(s) IN
-  IF IsPrivExc(x) THEN x
+  IF x # NoSig /\ x[1] = "exc" /\ PrivExact(x[3]) THEN x
   ELSE IF PrivOf(fs) # <<>> THEN PrivOf(fs)[1]
   ELSE IF own THEN (IF ConcOf(fs) # <<>> THEN Conc(ConcOf(fs)) ELSE NoSig)
   ELSE x
@@ -722,7 +725,10 @@ UserOp ==
               /\ \E c \in Classes :
                    /\ (Priv(c) => In("raise_priv"))
                    /\ cnt' = [cnt EXCEPT !.exc = @ + 1]
-                   /\ SetRun("exc", Exc(cnt.exc + 1, c))
+                   \* (the puppets raise the subclass where it is purely a child failure: in a task, outside any
+                   \* scope block of its own)
+                   /\ SetRun("exc", Exc(cnt.exc + 1, IF c = "Assert" /\ IsTask(A) /\ ~\E i \in 1..Len(Stack(A)) : Stack(A)[i].k = "scope"
+                                                    THEN "AssertSub" ELSE c))
                    /\ ev' = E(B([op |-> "raise", cls |-> c, id |-> cnt.exc + 1]))
               /\ act' = ac
               /\ UNCHANGED <<pending, future, task, sc, subs, flag, lock, fault>>
